@@ -477,6 +477,16 @@ pub fn attr_corpus(thorough: bool) -> Vec<Program> {
             }
         }
     }
+    // receivers that read no attribute of their own and only forward
+    for t in [Trait::FromDeriveInput, Trait::FromField, Trait::FromVariant, Trait::FromTypeParam] {
+        for fwd in [Fwd::All, Fwd::Only(vec!["doc".into(), "allow".into()]), Fwd::Only(vec![])] {
+            let mut s = StructDecl::new(t, vec![Field::new("gamma", Ty::OptU32)]);
+            s.attrs = vec![];
+            s.fwd = fwd.clone();
+            s.magic = vec!["attrs".into()];
+            out.push(Program { decls: vec![Decl::Struct(s)], root: 0, family: format!("attrs {} names=[] fwd={:?}", t.name(), fwd) });
+        }
+    }
     out
 }
 
